@@ -74,6 +74,29 @@ EvalO(st, m, asg, ovl, ovv) ==
         IN FoldLeft(put, v, [k \in 1..Len(nd.outs) |-> k])
   IN FoldLeft(step, [i \in 1..nl |-> 0], st.topo)
 Eval(st, m, asg) == EvalO(st, m, asg, -1, 0)
+\* The plain reading at DRIVEN PORTS (not the simulators' convention, see DESIGN 11.6): a port that has a driver is an ordinary
+\* signal - its readers see what the driver computes, not the assigned value.  st.topon: an order valid for this reading.
+DrivenPort(st, n) == n \in IoSet(st) /\ Len(NodeOf(st, n).ins) > 0 /\ NodeOf(st, n).ins[1] >= 0
+EvalN(st, m, asg) ==
+  LET nl == NLinesOf(st)
+      sn == SNodes(st)
+      sset == {sn[i] : i \in 1..Len(sn)}
+      sidx(n) == CHOOSE i \in 1..Len(sn) : sn[i] = n
+      step(v, n) ==
+        LET nd == NodeOf(st, n)
+            isS == n \in sset /\ ~DrivenPort(st, n)
+            base == IF isS THEN asg[sidx(n)]
+                    ELSE IF nd.kind = FORK \/ n \in sset THEN PinVal(nd, 0, v)
+                    ELSE GateVal(m, nd, v)
+            put(vv, k) == IF nd.outs[k] >= 0 /\ (n \in sset \/ nd.kind = FORK \/ k = 1)
+                          THEN [vv EXCEPT ![nd.outs[k] + 1] = IF isS /\ IsFF(st, n) /\ k = 2 THEN Inv(m, base) ELSE base]
+                          ELSE vv
+        IN FoldLeft(put, v, [k \in 1..Len(nd.outs) |-> k])
+  IN FoldLeft(step, [i \in 1..nl |-> 0], st.topon)
+TopoNOK(st) == /\ Len(st.topon) = NNodes(st)
+               /\ {st.topon[i] : i \in 1..Len(st.topon)} = 0..(NNodes(st) - 1)
+               /\ \A n \in 0..(NNodes(st) - 1) : (n \notin SSet(st) \/ DrivenPort(st, n)) =>
+                     \A x \in ConnIns(st, n) : (CHOOSE i \in 1..Len(st.topon) : st.topon[i] = DriverOf(st, x)) < (CHOOSE i \in 1..Len(st.topon) : st.topon[i] = n)
 \* what is captured at interface element i (1-based position in SNodes): the value at its input pin 0
 HasCapture(st, i) == LET nd == NodeOf(st, SNodes(st)[i]) IN Len(nd.ins) > 0 /\ nd.ins[1] >= 0
 Captured(st, v, i) == v[NodeOf(st, SNodes(st)[i]).ins[1] + 1]
